@@ -428,10 +428,53 @@ func WorkloadExpansion(p *core.Program, r *core.Report, rule string) {
 		}
 		return nil
 	}
-	// ---- roles of the locals, found by how the generated pods are built (not by what they are called)
+	// ---- roles of the locals, found by how the generated pods are built (not by what they are called). The pod may
+	// be built in place or in a constructor helper called from the loop: then the roles are found among the helper's
+	// parameters and carried back to the arguments of the call.
 	var podVar, nsVar, nameVar, apiVar, kindVar, templateVar, numVar, replicasVar types.Object
 	okLabels, okPorts := false, false
+	hasPodLit := func(g *core.FuncDecl) bool {
+		found := false
+		ast.Inspect(g.Decl.Body, func(n ast.Node) bool {
+			if cl, isCl := n.(*ast.CompositeLit); isCl {
+				if nt := core.NamedOf(g.Pkg.TypesInfo.TypeOf(cl)); nt != nil && nt.Obj().Name() == "Pod" {
+					found = true
+				}
+			}
+			return !found
+		})
+		return found
+	}
+	ctor := fd
+	var ctorCall *ast.CallExpr
+	if !hasPodLit(fd) {
+		ast.Inspect(fd.Decl.Body, func(n ast.Node) bool {
+			c, ok := n.(*ast.CallExpr)
+			if !ok || ctorCall != nil {
+				return true
+			}
+			if hd := p.ByObj[core.Callee(info, c)]; hd != nil && hd.Pkg.PkgPath == core.PkgK8s && hasPodLit(hd) {
+				ctor, ctorCall = hd, c
+			}
+			return true
+		})
+	}
+	cinfo := ctor.Pkg.TypesInfo
+	cobj := func(e ast.Expr) types.Object {
+		if id, ok := ast.Unparen(e).(*ast.Ident); ok {
+			return cinfo.ObjectOf(id)
+		}
+		return nil
+	}
 	ast.Inspect(fd.Decl.Body, func(n ast.Node) bool {
+		if c, isC := n.(*ast.CallExpr); isC && core.IsBuiltinCall(info, c, "make") && len(c.Args) == 2 {
+			if sl, isSl := info.TypeOf(c).Underlying().(*types.Slice); isSl && core.TypeIs(sl.Elem(), core.PkgK8s, "Pod") {
+				numVar = obj(c.Args[1])
+			}
+		}
+		return true
+	})
+	ast.Inspect(ctor.Decl.Body, func(n ast.Node) bool {
 		as, ok := n.(*ast.AssignStmt)
 		if !ok || len(as.Lhs) != 1 || len(as.Rhs) != 1 {
 			return true
@@ -441,52 +484,47 @@ func WorkloadExpansion(p *core.Program, r *core.Report, rule string) {
 			rhs = ast.Unparen(ue.X)
 		}
 		if cl, isCl := rhs.(*ast.CompositeLit); isCl {
-			if nt := core.NamedOf(info.TypeOf(cl)); nt != nil && nt.Obj().Name() == "Pod" && podVar == nil {
-				podVar = obj(as.Lhs[0])
-			}
-		}
-		if c, isC := rhs.(*ast.CallExpr); isC && core.IsBuiltinCall(info, c, "make") && len(c.Args) == 2 {
-			if sl, isSl := info.TypeOf(c).Underlying().(*types.Slice); isSl && core.TypeIs(sl.Elem(), core.PkgK8s, "Pod") {
-				numVar = obj(c.Args[1])
+			if nt := core.NamedOf(cinfo.TypeOf(cl)); nt != nil && nt.Obj().Name() == "Pod" && podVar == nil {
+				podVar = cobj(as.Lhs[0])
 			}
 		}
 		return true
 	})
 	if podVar != nil {
-		ast.Inspect(fd.Decl.Body, func(n ast.Node) bool {
+		ast.Inspect(ctor.Decl.Body, func(n ast.Node) bool {
 			switch x := n.(type) {
 			case *ast.AssignStmt:
 				if len(x.Lhs) != 1 || len(x.Rhs) != 1 {
 					return true
 				}
 				se, ok := ast.Unparen(x.Lhs[0]).(*ast.SelectorExpr)
-				if !ok || obj(se.X) != podVar {
+				if !ok || cobj(se.X) != podVar {
 					return true
 				}
 				switch se.Sel.Name {
 				case "Namespace":
-					nsVar = obj(x.Rhs[0])
+					nsVar = cobj(x.Rhs[0])
 				case "Owner":
 					if cl, isCl := ast.Unparen(x.Rhs[0]).(*ast.CompositeLit); isCl {
 						for _, el := range cl.Elts {
 							if kv, isKV := el.(*ast.KeyValueExpr); isKV {
 								switch core.ExprStr(kv.Key) {
 								case "Name":
-									nameVar = obj(kv.Value)
+									nameVar = cobj(kv.Value)
 								case "Kind":
-									kindVar = obj(kv.Value)
+									kindVar = cobj(kv.Value)
 								case "APIVersion":
-									apiVar = obj(kv.Value)
+									apiVar = cobj(kv.Value)
 								}
 							}
 						}
 					}
 				case "Ports":
 					// pod.Ports = append(pod.Ports, <template>.Spec.Containers[i].Ports...)
-					if c, isC := ast.Unparen(x.Rhs[0]).(*ast.CallExpr); isC && core.IsBuiltinCall(info, c, "append") && len(c.Args) == 2 {
+					if c, isC := ast.Unparen(x.Rhs[0]).(*ast.CallExpr); isC && core.IsBuiltinCall(cinfo, c, "append") && len(c.Args) == 2 {
 						if strings.Contains(core.ExprStr(c.Args[1]), ".Spec.Containers[") && strings.HasSuffix(core.ExprStr(c.Args[1]), ".Ports") {
-							if root := core.RootIdent(c.Args[1]); root != nil && (templateVar == nil || info.ObjectOf(root) == templateVar) {
-								templateVar = info.ObjectOf(root)
+							if root := core.RootIdent(c.Args[1]); root != nil && (templateVar == nil || cinfo.ObjectOf(root) == templateVar) {
+								templateVar = cinfo.ObjectOf(root)
 								okPorts = true
 							}
 						}
@@ -499,7 +537,7 @@ func WorkloadExpansion(p *core.Program, r *core.Report, rule string) {
 					ast.Inspect(x.Body, func(m ast.Node) bool {
 						if as, isAs := m.(*ast.AssignStmt); isAs && len(as.Lhs) == 1 {
 							if ix, isIx := ast.Unparen(as.Lhs[0]).(*ast.IndexExpr); isIx {
-								if se2, isSe := ast.Unparen(ix.X).(*ast.SelectorExpr); isSe && se2.Sel.Name == "Labels" && obj(se2.X) == podVar {
+								if se2, isSe := ast.Unparen(ix.X).(*ast.SelectorExpr); isSe && se2.Sel.Name == "Labels" && cobj(se2.X) == podVar {
 									writes = true
 								}
 							}
@@ -507,8 +545,8 @@ func WorkloadExpansion(p *core.Program, r *core.Report, rule string) {
 						return true
 					})
 					if writes {
-						if root := core.RootIdent(se); root != nil && (templateVar == nil || info.ObjectOf(root) == templateVar) {
-							templateVar = info.ObjectOf(root)
+						if root := core.RootIdent(se); root != nil && (templateVar == nil || cinfo.ObjectOf(root) == templateVar) {
+							templateVar = cinfo.ObjectOf(root)
 							okLabels = true
 						}
 					}
@@ -517,20 +555,54 @@ func WorkloadExpansion(p *core.Program, r *core.Report, rule string) {
 			return true
 		})
 	}
-	// the replica count: the variable compared with 1 in the statement that raises the number of generated pods
-	ast.Inspect(fd.Decl.Body, func(n ast.Node) bool {
-		ifs, ok := n.(*ast.IfStmt)
-		if !ok || numVar == nil {
-			return true
-		}
-		assignsNum := false
-		for _, st := range ifs.Body.List {
-			if as, isAs := st.(*ast.AssignStmt); isAs && len(as.Lhs) == 1 && obj(as.Lhs[0]) == numVar {
-				assignsNum = true
+	if ctorCall != nil {
+		// carry the roles from the constructor's parameters back to the arguments of the call
+		csig := ctor.Obj.Type().(*types.Signature)
+		back := func(o types.Object) types.Object {
+			if o == nil {
+				return nil
 			}
+			for k := 0; k < csig.Params().Len() && k < len(ctorCall.Args); k++ {
+				if types.Object(csig.Params().At(k)) == o {
+					a := ast.Unparen(ctorCall.Args[k])
+					if ue, isU := a.(*ast.UnaryExpr); isU && ue.Op == token.AND {
+						a = ast.Unparen(ue.X)
+					}
+					return obj(a)
+				}
+			}
+			return nil
 		}
-		if be, isBE := ast.Unparen(ifs.Cond).(*ast.BinaryExpr); isBE && assignsNum {
-			replicasVar = obj(be.X)
+		nsVar, nameVar, kindVar, apiVar, templateVar = back(nsVar), back(nameVar), back(kindVar), back(apiVar), back(templateVar)
+	}
+	// the replica count: the variable compared with 1 in the statement that raises the number of generated pods, or the
+	// argument of the helper that computes that number
+	var countHelper *core.FuncDecl
+	ast.Inspect(fd.Decl.Body, func(n ast.Node) bool {
+		switch x := n.(type) {
+		case *ast.IfStmt:
+			if numVar == nil {
+				return true
+			}
+			assignsNum := false
+			for _, st := range x.Body.List {
+				if as, isAs := st.(*ast.AssignStmt); isAs && len(as.Lhs) == 1 && obj(as.Lhs[0]) == numVar {
+					assignsNum = true
+				}
+			}
+			if be, isBE := ast.Unparen(x.Cond).(*ast.BinaryExpr); isBE && assignsNum {
+				replicasVar = obj(be.X)
+			}
+		case *ast.AssignStmt:
+			if numVar == nil || len(x.Lhs) != 1 || len(x.Rhs) != 1 || obj(x.Lhs[0]) != numVar {
+				return true
+			}
+			if c, isC := ast.Unparen(x.Rhs[0]).(*ast.CallExpr); isC && len(c.Args) == 1 {
+				if hd := p.ByObj[core.Callee(info, c)]; hd != nil && returnsPositiveConstants(p, info, c) {
+					replicasVar = obj(c.Args[0])
+					countHelper = hd
+				}
+			}
 		}
 		return true
 	})
@@ -653,13 +725,35 @@ func WorkloadExpansion(p *core.Program, r *core.Report, rule string) {
 				if _, isVS := par.(*ast.ValueSpec); !isVS {
 					be, isBE := par.(*ast.BinaryExpr)
 					if !isBE || be.Op != token.GTR || core.ExprStr(be.Y) != "1" {
-						bad = core.ExprStr(par)
+						if c, isC := par.(*ast.CallExpr); !isC || countHelper == nil || core.Callee(info, c) != countHelper.Obj {
+							bad = core.ExprStr(par)
+						}
 					}
 				}
 			}
 			parents = append(parents, n)
 			return true
 		})
+		if countHelper != nil {
+			// inside the helper the count is read only in `count > 1` as well
+			hinfo := countHelper.Pkg.TypesInfo
+			prm := countHelper.Obj.Type().(*types.Signature).Params().At(0)
+			var hp []ast.Node
+			ast.Inspect(countHelper.Decl.Body, func(n ast.Node) bool {
+				if n == nil {
+					hp = hp[:len(hp)-1]
+					return true
+				}
+				if id, ok := n.(*ast.Ident); ok && hinfo.ObjectOf(id) == types.Object(prm) {
+					be, isBE := hp[len(hp)-1].(*ast.BinaryExpr)
+					if !isBE || be.Op != token.GTR || core.ExprStr(be.Y) != "1" {
+						bad = core.ExprStr(hp[len(hp)-1]) + " in " + countHelper.Key()
+					}
+				}
+				hp = append(hp, n)
+				return true
+			})
+		}
 		r.Check(bad == "", rule+"-replicas", fd.Key()+": the replica count only decides between one and two generated pods", p.Pos(fd.Decl.Pos()), "read only in `count > 1`", "the replica count flows into "+bad+": connectivity must not depend on the number of replicas")
 	}
 	// owner of a bare pod: only from an ownerReference whose controller flag is TRUE
@@ -681,6 +775,41 @@ func WorkloadExpansion(p *core.Program, r *core.Report, rule string) {
 				for _, a := range facts.Atoms(fm) {
 					if strings.HasPrefix(a, "b:*") && strings.HasSuffix(a, ".Controller") && facts.Entails(fm, facts.Atom(a)) {
 						ok = true
+					}
+				}
+			}
+			// or the reference comes from a search helper: every non-nil answer of the helper is a reference whose
+			// controller flag is known to be true on the path of that answer
+			if !ok && len(call.Args) > 0 {
+				arg := ast.Unparen(call.Args[0])
+				if ue, isU := arg.(*ast.UnaryExpr); isU && ue.Op == token.AND {
+					arg = ast.Unparen(ue.X)
+				}
+				if id, isId := arg.(*ast.Ident); isId {
+					if d, _ := defOf(pf, id); d != nil {
+						if hc, isC := ast.Unparen(d).(*ast.CallExpr); isC {
+							if hd := p.ByObj[core.Callee(pinfo, hc)]; hd != nil {
+								hinfo := hd.Pkg.TypesInfo
+								hw := facts.NewWalker(hinfo)
+								nAns, okAll := 0, true
+								hw.OnExit = func(st int, ret *ast.ReturnStmt, hf facts.Formula) {
+									if hw.FuncLitDepth > 0 || ret == nil || len(ret.Results) == 0 || core.IsNil(hinfo, ret.Results[0]) {
+										return
+									}
+									nAns++
+									res := ast.Unparen(ret.Results[0])
+									if ue, isU := res.(*ast.UnaryExpr); isU && ue.Op == token.AND {
+										res = ast.Unparen(ue.X)
+									}
+									want := "b:*" + hw.Path(res) + ".Controller"
+									if !facts.Entails(hf, facts.Atom(want)) {
+										okAll = false
+									}
+								}
+								hw.WalkBody(hd.Decl.Body, nil)
+								ok = nAns > 0 && okAll
+							}
+						}
 					}
 				}
 			}
